@@ -117,6 +117,10 @@ def random_circuit(rng, n_in=3, n_gates=5, types=GATES, max_fanin=3, p_const=0.0
             edges.append([f"{inst}.q", q])
             avail.append(q)
             qbufs.append(q)
+    if not avail:
+        n = nm("k0")
+        nodes.append([n, "0", False])
+        avail.append(n)
     gates = []
     for k in range(n_gates):
         g = nm(f"g{k}")
